@@ -38,3 +38,7 @@ package chain
 //@ spec func addrOfKey(s ref, key []byte) Address
 //@ assume func Signing.PublicKeyBytesToAddress
 //@   ensures result == @addrOfKey(recv, publicKey)
+
+//@ func Address.String
+//@   property C12
+//@   ensures result == a
